@@ -168,6 +168,12 @@ def run_group(g, tier, seed, use_cache=True):
     mcs = {}
     ltsfiles = {}
     summaries = []
+    if g in ('ovl', 'ovl_cycles'):
+        # Level B: the overlay algorithm refines Level A for every initial content of two layers
+        mc = run_mc('MC_Overlay_q', 'MC_Overlay_q', workers=16)
+        if not mc['ok']:
+            raise ToolError('model checking of MC_Overlay_q failed:\n%s' % mc.get('tail', ''))
+        mcs['MC_Overlay_q'] = mc
     for i, r in enumerate(runs):
         out = '%s/traces/r%02d' % (gdir, i)
         t1 = time.time()
@@ -282,7 +288,7 @@ def run_group(g, tier, seed, use_cache=True):
     # validate all shards of all runs (one pool per trace specification)
     alldir = gdir + '/all'
     v = []
-    st = {'shards': 0, 'events': 0, 'tlc_wall_s': 0}
+    st = {'shards': 0, 'events': 0, 'tlc_wall_s': 0, 'drift': 0}
     byspec = {}
     for i, r in enumerate(runs):
         byspec.setdefault(r.get('tspec', 'Trace_Tree'), []).append(i)
@@ -438,6 +444,7 @@ def decide(prop, spec, results, tier, seed, t0):
                        'runs': [{k: s.get(k) for k in ('cfg', 'mode', 'names', 'b', 'events', 'segments', 'edges_run', 'fast_disagreements', 'distinct_state_ops')} for s in r['runs']]} for r in results],
            'model_checking': {k: {kk: m.get(kk) for kk in ('module', 'states', 'transitions', 'action_coverage', 'cached')} for r in results for k, m in r['mc'].items()},
            'known_findings_seen': sorted(printed_known), 'other_properties_seen': others,
+           'level_b_drift_records': sum(r['stats'].get('drift', 0) for r in results),
            'distinct_violation_signatures': nviol}
     write_evidence(prop, tier, seed, LEVEL, cov, time.time() - t0, nviol,
                    ['TLC and the Json/IOUtils community modules are trusted', 'the harness projection (observer, name/byte tables) is trusted to record what the code returned',
